@@ -449,7 +449,8 @@ def validate_hier_intervals(intervals_hier):
 
     boundaries = set(util.intervals_to_boundaries(intervals_hier[0]))
 
-    for level, intervals in enumerate(intervals_hier[1:], 1):
+    # The top level is included, so that a single-level hierarchy is validated too
+    for level, intervals in enumerate(intervals_hier):
         # Make sure this level is consistent with the root
         label_current = util.generate_labels(intervals)
         validate_structure(intervals_hier[0], label_top, intervals, label_current)
